@@ -10,7 +10,7 @@ import re
 
 from ..build import AnalysisBroken
 from ..callgraph import CallGraph
-from ..util import site, guards, macro_of_const, const_value, local_defs
+from ..util import site, guards, macro_of_const, const_value, local_defs, stores_to_field
 from ..affine import lin, single_defs
 
 FORMATS = {"FORMAT_FA": "fasta", "FORMAT_MSF": "msf", "FORMAT_CLU": "clu"}
@@ -18,6 +18,7 @@ FORMATS = {"FORMAT_FA": "fasta", "FORMAT_MSF": "msf", "FORMAT_CLU": "clu"}
 
 def describe(ck):
     ck.rule("R06i", "the effect summary of kalign_write_msa shows no store into rows, names or gap counts of the msa it writes")
+    ck.rule("R06k", "every path to a call of kalign_write_msa runs something that can set ALN_STATUS_FINAL first: a function that writes an msa without being able to render it can only fail")
     ck.rule("R06j", "every string write_msa_msf formats into a line is a literal, a sequence name, a strftime date without '/' or the base name from tlfilename - not a caller-supplied path")
     ck.rule("R06h", "the test that makes a block line the next row of read_clu / read_msf is equivalent to `first character is not a blank` for every byte value")
     ck.rule("R06a", "for each format: every token the reader searches for is a substring of a literal the writer of that format emits, and no detection token of format X occurs in a writer literal of format Y")
@@ -310,16 +311,20 @@ def r06i(ck, prog):
 
 def r06j(ck, prog):
     """nothing printed into the MSF header can be taken for the '//' divider by read_msf: every string (%s) that write_msa_msf
-    formats into a line is a literal without '//', a sequence name, the date written by strftime from a literal format without
-    '/', or the base name produced by tlfilename (which keeps only what follows the last '/') - never a path as the caller
-    gave it"""
-    F = prog.fn("write_msa_msf")
+    (or a private helper it calls) formats into a line is a literal without '//', a sequence name, the date written by strftime
+    from a literal format without '/', or the base name produced by tlfilename (which keeps only what follows the last '/') -
+    never a path as the caller gave it"""
+    from .c15 import writer_closure
+    CL = writer_closure(prog, "write_msa_msf")
+    root = CL[0]
     n = 0
 
-    def classify(a, depth=0):
+    def classify(F, a, depth=0):
         a0 = a.strip(casts=True)
+        if depth > 6:
+            return ("unknown", a0.text()[:30])
         if a0.k == "ConditionalOperator":
-            r = [classify(a0.child("then"), depth), classify(a0.child("else"), depth)]
+            r = [classify(F, a0.child("then"), depth + 1), classify(F, a0.child("else"), depth + 1)]
             return next((x for x in r if x[0] != "ok"), r[0])
         if a0.k == "StringLiteral":
             return ("ok", "literal") if "//" not in a0.d.get("s", "") else ("bad", "the literal %r" % a0.d.get("s"))
@@ -328,7 +333,23 @@ def r06j(ck, prog):
         if any(m.d.get("field") == "line" for m in a0.walk() if m.k == "MemberExpr"):
             return ("ok", "a finished line")
         if a0.k == "DeclRefExpr" and a0.d.get("dk") == "Parm":
-            return ("bad", "the parameter %s as the caller gave it" % a0.d["name"])
+            if F is root:
+                return ("bad", "the parameter %s as the caller gave it" % a0.d["name"])
+            idx = F.param_index(a0.d["name"])
+            sites = [(G, c) for G in CL for c in G.body.calls(F.name)]
+            if idx is None or not sites:
+                return ("unknown", a0.text()[:30])
+            rs = [classify(G, c.args[idx], depth + 1) for G, c in sites if idx < len(c.args)]
+            return next((x for x in rs if x[0] != "ok"), rs[0]) if rs else ("unknown", a0.text()[:30])
+        if a0.k == "CallExpr" and a0.callee:
+            # a helper that returns the label: every returned value is classified in the helper
+            H = prog.fn(prog.resolve(a0.callee, F.file), required=False)
+            if H is not None and H in CL:
+                rs = [classify(H, r_.kids[0], depth + 1) for r_ in H.body.find("ReturnStmt") if r_.kids and not (
+                    r_.kids[0].strip(casts=True).cv == 0 or "NULL" in "".join(r_.kids[0].strip(casts=True).mac or []))]
+                return next((x for x in rs if x[0] != "ok"), rs[0]) if rs else ("unknown", a0.text()[:30])
+            if a0.callee in ("strdup", "strndup") and a0.args:
+                return classify(F, a0.args[0], depth + 1)
         if a0.k == "DeclRefExpr" and a0.d.get("dk") == "Var":
             did = a0.d["did"]
             for c in F.body.calls("tlfilename"):
@@ -338,41 +359,83 @@ def r06j(ck, prog):
                 if c.args and any(x.k == "DeclRefExpr" and x.d.get("did") == did for x in c.args[0].walk()):
                     fmt = next((x.strip(casts=True).d.get("s", "") for x in c.args if x.strip(casts=True).k == "StringLiteral"), None)
                     return ("ok", "date from strftime") if fmt is not None and "/" not in fmt and "%D" not in fmt and "%x" not in fmt else ("bad", "a date whose format can contain '/'")
-            if depth < 2:
-                defs = [d for d, _ in local_defs(F, did) if d is not None and not (d.strip(casts=True).cv == 0 or "NULL" in "".join(d.strip(casts=True).mac))]
-                if defs:
-                    rs = [classify(d, depth + 1) for d in defs]
-                    return next((x for x in rs if x[0] != "ok"), rs[0])
+            for c in F.body.calls("snprintf", "strncpy", "memcpy", "strcpy"):
+                if c.args and any(x.k == "DeclRefExpr" and x.d.get("did") == did for x in c.args[0].walk()):
+                    srcs = [x for x in c.args[1:] if "char" in (x.strip(casts=True).ty or "") and x.strip(casts=True).k != "StringLiteral"]
+                    lits = [x for x in c.args[1:] if x.strip(casts=True).k == "StringLiteral"]
+                    rs = [classify(F, x, depth + 1) for x in srcs] + [classify(F, x, depth + 1) for x in lits if "%" not in x.strip(casts=True).d.get("s", "")]
+                    if rs:
+                        return next((x for x in rs if x[0] != "ok"), rs[0])
+            defs = [d for d, _ in local_defs(F, did) if d is not None and not (d.strip(casts=True).cv == 0 or "NULL" in "".join(d.strip(casts=True).mac or []))]
+            defs = [d for d in defs if not (d.strip(casts=True).k == "CallExpr" and d.strip(casts=True).callee in ("malloc", "calloc", "realloc"))]
+            if defs:
+                rs = [classify(F, d, depth + 1) for d in defs]
+                return next((x for x in rs if x[0] != "ok"), rs[0])
         return ("unknown", a0.text()[:30])
     import re as _re
-    for c in F.body.calls():
-        fi = next((i for i, a in enumerate(c.args) if a.strip(casts=True).k == "StringLiteral" and "%" in a.strip(casts=True).d.get("s", "")), None)
-        if fi is None or not (c.callee in ("snprintf", "fprintf", "sprintf") or _printf_like(prog, c, c.args[fi])):
-            continue
-        if c.callee == "fprintf" and any(x.strip(casts=True).text() == "stderr" for x in c.args[:1]):
-            continue
-        fmt = c.args[fi].strip(casts=True).d["s"]
-        argi = 0
-        for m in _re.finditer(r"%([-+ #0]*)(\*|\d+)?(?:\.(\*|\d+))?(hh|h|ll|l|L|z|j|t)?([diouxXeEfFgGaAcspn%])", fmt):
-            if m.group(5) == "%":
+    for F in CL:
+        for c in F.body.calls():
+            fi = next((i for i, a in enumerate(c.args) if a.strip(casts=True).k == "StringLiteral" and "%" in a.strip(casts=True).d.get("s", "")), None)
+            if fi is None or not (c.callee in ("snprintf", "fprintf", "sprintf") or _printf_like(prog, c, c.args[fi])):
                 continue
-            argi += (m.group(2) == "*") + (m.group(3) == "*")
-            val = c.args[fi + 1 + argi] if fi + 1 + argi < len(c.args) else None
-            argi += 1
-            if m.group(5) != "s" or val is None:
+            if c.callee == "fprintf" and any(x.strip(casts=True).text() == "stderr" for x in c.args[:1]):
                 continue
-            n += 1
-            kind, what = classify(val)
-            where = site(prog, c, "%s")
-            ck.inst("R06j", where, "write_msa_msf formats %s into a line: %s" % (val.text()[:40], what), prog.config)
-            if kind == "bad":
-                ck.violation("R06j", "R06j/write_msa_msf/%s" % _re.sub(r"\W+", "-", what)[:30], where,
-                             "write_msa_msf prints %s into a line of the file: if it contains '//' (an output directory given with a "
-                             "trailing slash is enough) read_msf takes that line for the divider, registers no names and cannot read the "
-                             "file back" % what, prog.config)
-            elif kind == "unknown":
-                raise AnalysisBroken("R06j: where the string %s printed by write_msa_msf comes from is not understood" % what)
+            fmt = c.args[fi].strip(casts=True).d["s"]
+            argi = 0
+            for m in _re.finditer(r"%([-+ #0]*)(\*|\d+)?(?:\.(\*|\d+))?(hh|h|ll|l|L|z|j|t)?([diouxXeEfFgGaAcspn%])", fmt):
+                if m.group(5) == "%":
+                    continue
+                argi += (m.group(2) == "*") + (m.group(3) == "*")
+                val = c.args[fi + 1 + argi] if fi + 1 + argi < len(c.args) else None
+                argi += 1
+                if m.group(5) != "s" or val is None:
+                    continue
+                n += 1
+                kind, what = classify(F, val)
+                where = site(prog, c, "%s")
+                ck.inst("R06j", where, "%s formats %s into a line: %s" % (F.name, val.text()[:40], what), prog.config)
+                if kind == "bad":
+                    ck.violation("R06j", "R06j/write_msa_msf/%s" % _re.sub(r"\W+", "-", what)[:30], where,
+                                 "%s prints %s into a line of the file: if it contains '//' (an output directory given with a "
+                                 "trailing slash is enough) read_msf takes that line for the divider, registers no names and cannot read the "
+                                 "file back" % (F.name, what), prog.config)
+                elif kind == "unknown":
+                    raise AnalysisBroken("R06j: where the string %s printed by %s comes from is not understood" % (what, F.name))
     ck.floor("R06j", n, 3, "strings formatted into MSF lines")
+
+
+def r06k(ck, prog):
+    """whoever writes an msa has brought it to the rendered state first: kalign_write_msa refuses anything but
+    ALN_STATUS_FINAL, so in every function that calls it, each path to the call runs something that can set that status
+    (kalign_run, finalise_alignment, or a function that reaches one of them) - otherwise the call can only fail and the
+    tool built around it cannot convert or write anything"""
+    from ..callgraph import CallGraph
+    final = prog.macro_int("ALN_STATUS_FINAL")
+    setters = set()
+    for F in prog.lib_functions():
+        for a, lhs, rhs in stores_to_field(F.body, "msa", "aligned"):
+            if const_value(rhs) == final:
+                setters.add(F.name)
+    if not setters:
+        raise AnalysisBroken("R06k slot: no function assigns ALN_STATUS_FINAL")
+    cg = CallGraph(prog)
+    may = {g for g in cg.defined if cg.reachable({g}) & setters}
+    n = 0
+    for F in prog.all_functions:
+        if "/tests/" in F.file or F.cfg is None:
+            continue
+        for c in F.body.calls("kalign_write_msa"):
+            n += 1
+            where = site(prog, c, "kalign_write_msa")
+            prod = [x for x in F.body.calls() if x.callee in may and x is not c]
+            ck.inst("R06k", where, "%s writes an msa; calls that can render it first: %s" % (F.name, sorted({x.callee for x in prod}) or "none"), prog.config)
+            pos = [F.cfg.position(x) for x in prod]
+            if F.cfg.reaches(None, F.cfg.position(c), avoid=[p_ for p_ in pos if p_ is not None]):
+                ck.violation("R06k", "R06k/%s/never-final" % F.name, where,
+                             "%s reaches kalign_write_msa on a path that runs nothing able to set ALN_STATUS_FINAL (%s): the writer's gate "
+                             "refuses every msa that arrives this way - an alignment that was read cannot be written in another format" % (
+                                 F.name, ", ".join(sorted(setters)) + " set it"), prog.config)
+    ck.floor("R06k", n, 2, "callers of kalign_write_msa")
 
 
 def r06b(ck, prog):
@@ -517,6 +580,7 @@ def run(ck, progs):
         ck.attempt(r06h, ck, prog)
         ck.attempt(r06i, ck, prog)
         ck.attempt(r06j, ck, prog)
+        ck.attempt(r06k, ck, prog)
         from . import c15
         before = len(ck.instances)
         ck.attempt(c15.r15e, ck, prog)
